@@ -4,7 +4,8 @@
 use crate::{hist, targets, util};
 use injectorpp::interface::injector::*;
 use std::panic::{catch_unwind, AssertUnwindSafe};
-use std::sync::{Arc, Barrier};
+use std::sync::atomic::{AtomicUsize, Ordering};
+use std::sync::Arc;
 
 fn one(line: &str) -> String {
     let t: Vec<&str> = line.split_whitespace().collect();
@@ -13,14 +14,16 @@ fn one(line: &str) -> String {
         let mut inj = InjectorPP::new();
         let tf: fn(u64) -> u64 = targets::r0;
         inj.when_called(injectorpp::func!(fn (tf)(u64) -> u64)).will_execute(hist::site(site));
-        let barrier = Arc::new(Barrier::new(nt));
+        let barrier = Arc::new(AtomicUsize::new(0));     // a spinning gate: all threads leave it within a few cycles of each other (a futex barrier wakes them one by one)
         let mut hs = Vec::new();
         for ti in 0..nt {
             let b = barrier.clone();
             // thread ti makes the calls whose index = ti (mod nt); the first k indices are matching calls
             hs.push(std::thread::spawn(move || {
                 let mut r = (0usize, 0usize, 0usize, 0usize, 0usize);   // admitted, overcalled, rejected, wrong value, other
-                b.wait();
+                b.fetch_add(1, Ordering::SeqCst);
+                let t0 = std::time::Instant::now();
+                while b.load(Ordering::SeqCst) < nt { if t0.elapsed().as_millis() > 20 { std::thread::yield_now(); } else { std::hint::spin_loop(); } }
                 for i in (ti..k + m).step_by(nt) {
                     // interleave: every (k+m)/m-th call is a non-matching one
                     let matching = if m == 0 { true } else { (i * m) / (k + m) == ((i + 1) * m) / (k + m) };
